@@ -994,6 +994,14 @@ func (s *MutableState) TransferFromCommon(
 				return false, err
 			}
 
+			if transferred.IsZero() && to.Escrow.Active.Balance.IsZero() {
+				// Everything counts as commission, but the pool has outstanding shares and
+				// no balance (it lost everything through slashing), so there is no way to
+				// create more shares. Callers run during block processing, so this must not
+				// be an error: nothing is transferred, as with a depleted common pool.
+				return false, nil
+			}
+
 			// Escrow everything except the commission (increases value of all shares).
 			if err = quantity.Move(&to.Escrow.Active.Balance, &to.General.Balance, transferred); err != nil {
 				return false, fmt.Errorf("cometbft/staking: failed transferring to active escrow balance from common pool: %w", err)
